@@ -294,3 +294,77 @@ def check_global_row_ids(ctx, fn_key, rule='A21g'):
     if not found:
         raise AnalysisError(f'{fn_key}: row ids (np.arange(<table>.shape[0])) not found')
     return n
+
+
+# ---------------------------------------------------------------------- A21k: keys of the fixed-value table
+def check_fixed_table_keys(ctx, rule='A21k'):
+    """The fixed-value table is keyed by the position of a variable among *all* design variables, whose layout is
+    [selection-choice variables][connection-choice variables][design-variable-node variables].  Every key used with the
+    table (membership, look-up, store, delete) has one of the origins the code base uses for such a position: `.index`
+    on the list of all variables, an index map, the counter of an enumeration / range over a full-length sequence, the
+    counter of enumerate(_sel_choice_idx_map) (the selection segment comes first), a parameter.  A key computed by
+    offset arithmetic is accepted only when it cannot be the known-wrong shape - a counter over the design-variable
+    nodes added to an offset that only counts selection choices (the connection segment lies in between); any other
+    arithmetic is an unrecognised idiom (exit 2), not a verdict."""
+    cls = ctx.prog.cls(GP)
+    n = 0
+    for fn in cls.methods.values():
+        for u in [fn] + list(fn.nested.values()):
+            alias = {'self._fixed_values'} | {norm(a.targets[0]) for a in walk_fn(u) if isinstance(a, ast.Assign) and
+                                              isinstance(a.targets[0], ast.Name) and
+                                              'self._fixed_values' in norm(a.value) and
+                                              not isinstance(a.value, ast.Call)}
+            keys = []
+            for x in ast.walk(u.node):
+                if isinstance(x, ast.Compare) and len(x.ops) == 1 and isinstance(x.ops[0], (ast.In, ast.NotIn)) and \
+                        norm(x.comparators[0]) in alias:
+                    keys.append(x.left)
+                if isinstance(x, ast.Subscript) and norm(x.value) in alias:
+                    keys.append(x.slice)
+                if isinstance(x, ast.Call) and call_name(x) in ('pop', 'get') and isinstance(x.func, ast.Attribute) and \
+                        norm(x.func.value) in alias and x.args:
+                    keys.append(x.args[0])
+            for k in keys:
+                if not isinstance(k, ast.Name):
+                    continue
+                if k.id in u.params:
+                    continue
+                defs = [a.value for a in walk_fn(u) if isinstance(a, ast.Assign) and norm(a.targets[0]) == k.id]
+                counters = []       # (iterable text) for loops / comprehensions binding k as a counter or element
+                for g in [x for x in ast.walk(u.node) if isinstance(x, (ast.For, ast.comprehension))]:
+                    tg, it = g.target, g.iter
+                    if isinstance(tg, ast.Tuple) and isinstance(it, ast.Call) and call_name(it) == 'enumerate' and \
+                            isinstance(tg.elts[0], ast.Name) and tg.elts[0].id == k.id:
+                        counters.append(norm(it.args[0]))
+                    elif isinstance(tg, ast.Name) and tg.id == k.id:
+                        counters.append(norm(it))
+                arith = [d for d in defs if isinstance(d, ast.BinOp)]
+                if not arith:
+                    continue            # .index / map look-up / counter / call: the origins the code base uses
+                n += 1
+                ctx.touch(fn)
+                for d in arith:
+                    names = {y.id for y in ast.walk(d) if isinstance(y, ast.Name)}
+                    # counters of the expression: names bound by an enumeration over the design-variable nodes
+                    over_dv_nodes = any(
+                        isinstance(g.target, ast.Tuple) and isinstance(g.iter, ast.Call) and
+                        call_name(g.iter) == 'enumerate' and 'design_variable_nodes' in norm(g.iter.args[0]) and
+                        isinstance(g.target.elts[0], ast.Name) and g.target.elts[0].id in names
+                        for g in [x for x in ast.walk(u.node) if isinstance(x, (ast.For, ast.comprehension))])
+                    t = norm(expand_locals(u, d))
+                    sel_only = ('_sel_choice_idx_map' in t or 'selection_choice_nodes' in t) and \
+                        not any(w in t for w in ('all_des_vars', 'conn', 'i_dv_end', 'i_dv_start', 'des_vars'))
+                    if over_dv_nodes and sel_only:
+                        ctx.ob(rule, fkey(fn, rule, f'fixed-table-key:{k.id}'), False, f'{fn.module.relpath}:{d.lineno}',
+                               'a key of the fixed-value table is the position of the variable among all design '
+                               'variables ([selection][connection][design-variable nodes])',
+                               f'`{k.id} = {short(d)}` places the design-variable nodes right after the selection '
+                               f'choices: the connection-choice variables in between are not counted, so a fixed '
+                               f'design-variable node is looked up under the wrong position')
+                    else:
+                        raise AnalysisError(f'A21k {fn.qualname}: key `{k.id}` of the fixed-value table is computed by '
+                                            f'arithmetic the rule does not know (`{short(d)}`)')
+    ctx.ob(rule, f'{GP}:A21k:fixed-table-keys-have-known-origin', True, cls.where,
+           'keys of the fixed-value table come from .index / an index map / an enumeration over a full-length sequence',
+           f'{n} arithmetic key(s) inspected')
+    return n
